@@ -146,6 +146,12 @@ var reassigned = map[types.Object]bool{}
 // `var v = e`); both filled by IndexAssignments.
 var nAssign = map[types.Object]int{}
 var initVal = map[types.Object]ast.Expr{}
+
+// fieldStored[v][f]: somewhere `v.f` is stored into (assigned, inc/dec-ed, its address taken); handedOver[v]: the
+// local v itself is an argument or the receiver of a call (what happens to its fields there is not seen). Filled
+// by IndexAssignments; they decide when `v.f` still is what the literal that defines v put there.
+var fieldStored = map[types.Object]map[string]bool{}
+var handedOver = map[types.Object]bool{}
 var indexed = map[*core.Program]bool{}
 
 // IndexAssignments records, once per loaded program, which variables of the module are re-assigned.
@@ -167,11 +173,41 @@ func IndexAssignments(p *core.Program) {
 				}
 			}
 		}
+		store := func(e ast.Expr) {
+			if sel, ok := ast.Unparen(e).(*ast.SelectorExpr); ok {
+				if id, isID := ast.Unparen(sel.X).(*ast.Ident); isID {
+					if o := info.Uses[id]; o != nil {
+						if fieldStored[o] == nil {
+							fieldStored[o] = map[string]bool{}
+						}
+						fieldStored[o][sel.Sel.Name] = true
+					}
+				}
+			}
+		}
 		for _, f := range pk.Syntax {
 			ast.Inspect(f, func(n ast.Node) bool {
 				switch x := n.(type) {
+				case *ast.CallExpr:
+					for _, a := range x.Args {
+						if id, ok := ast.Unparen(a).(*ast.Ident); ok {
+							if o, isV := info.Uses[id].(*types.Var); isV {
+								handedOver[o] = true
+							}
+						}
+					}
+					if sel, ok := ast.Unparen(x.Fun).(*ast.SelectorExpr); ok {
+						if s := info.Selections[sel]; s != nil && s.Kind() == types.MethodVal {
+							if id, isID := ast.Unparen(sel.X).(*ast.Ident); isID {
+								if o, isV := info.Uses[id].(*types.Var); isV {
+									handedOver[o] = true
+								}
+							}
+						}
+					}
 				case *ast.AssignStmt:
 					for i, l := range x.Lhs {
+						store(l)
 						mark(l) // a use on the left-hand side is a re-assignment (definitions are not uses)
 						if id, ok := l.(*ast.Ident); ok && info.Defs[id] != nil && len(x.Lhs) == len(x.Rhs) {
 							initVal[info.Defs[id]] = x.Rhs[i]
@@ -185,9 +221,11 @@ func IndexAssignments(p *core.Program) {
 					}
 				case *ast.IncDecStmt:
 					mark(x.X)
+					store(x.X)
 				case *ast.UnaryExpr:
 					if x.Op == token.AND {
 						mark(x.X)
+						store(x.X)
 					}
 				case *ast.RangeStmt:
 					if x.Tok == token.ASSIGN {
@@ -204,6 +242,47 @@ func IndexAssignments(p *core.Program) {
 		}
 	}
 }
+
+// Slot names the storage an expression denotes: a variable, or the field `v.f` of a struct-typed (or pointer to
+// struct) LOCAL v - state that a small type owns instead of a plain local. A field slot is a synthetic variable
+// (one per root variable and field, positioned at the root's declaration so that scope tests speak about v).
+func Slot(info *types.Info, e ast.Expr) types.Object {
+	e = ast.Unparen(e)
+	sel, ok := e.(*ast.SelectorExpr)
+	if !ok {
+		return core.ObjOf(info, e)
+	}
+	x := ast.Unparen(sel.X)
+	if u, isAddr := x.(*ast.UnaryExpr); isAddr && u.Op == token.AND {
+		x = ast.Unparen(u.X)
+	}
+	if st, isStar := x.(*ast.StarExpr); isStar {
+		x = ast.Unparen(st.X)
+	}
+	id, ok := x.(*ast.Ident)
+	s := info.Selections[sel]
+	if !ok || s == nil || s.Kind() != types.FieldVal {
+		return core.ObjOf(info, e)
+	}
+	root, ok := info.Uses[id].(*types.Var)
+	if !ok || root.IsField() || root.Pkg() == nil || root.Parent() == root.Pkg().Scope() {
+		return core.ObjOf(info, e)
+	}
+	f := s.Obj()
+	if fieldSlots[root] == nil {
+		fieldSlots[root] = map[types.Object]*types.Var{}
+	}
+	if fieldSlots[root][f] == nil {
+		fieldSlots[root][f] = types.NewVar(root.Pos(), root.Pkg(), root.Name()+"."+f.Name(), f.Type())
+		slotRoot[fieldSlots[root][f]] = root
+		slotField[fieldSlots[root][f]] = f.Name()
+	}
+	return fieldSlots[root][f]
+}
+
+var fieldSlots = map[*types.Var]map[types.Object]*types.Var{}
+var slotRoot = map[types.Object]*types.Var{}
+var slotField = map[types.Object]string{}
 
 // localCopy: the variable defined by id is a transparent single-assignment local.
 func localCopy(info *types.Info, id *ast.Ident) bool {
